@@ -1966,3 +1966,19 @@ MUTANTS.append({"id": "C16-benign-cycle-path-hoisted-and-cleared-first", "prop":
     (F_IM, "      cerr << \"Circular dependency between libraries detected:\\n\";\n", "      cerr << \"Circular dependency between libraries detected:\\n\";\n      vector_string cycle;\n"),
     (F_IM, "        vector_string cycle;\n        cycle.push_back(library_name);\n", "        cycle.clear();\n        cycle.push_back(library_name);\n"),
 ]})
+
+# ---- R14.9 (S8-C14: inf/nan texts without terminator)
+F_PD = "src/dtoolbase/pdtoa.cxx"
+M("C14-inf-text-not-terminated", "C14", F_PD,
+  "    buffer[0] = 'i';\n    buffer[1] = 'n';\n    buffer[2] = 'f';\n    buffer[3] = '\\0';\n", "    memcpy(buffer, \"inf\", 3);\n",
+  expect="R14.9|pdtoa|arm#0|terminated")
+M("C14-one-point-zero-terminator-off-by-one", "C14", F_PD,
+  "    buffer[0] = '1';\n    buffer[1] = '.';\n    buffer[2] = '0';\n    buffer[3] = '\\0';\n",
+  "    buffer[0] = '1';\n    buffer[1] = '.';\n    buffer[2] = '0';\n    buffer[4] = '\\0';\n",
+  expect="R14.9|pdtoa|arm#3|terminated")
+M("C14-prettify-fraction-arm-not-terminated", "C14", F_PD,
+  "    buffer[kk] = '.';\n    buffer[length + 1] = '\\0';\n", "    buffer[kk] = '.';\n",
+  expect="R14.9|Prettify|arm#1|terminated")
+M("C14-benign-nan-text-by-memcpy-with-terminator", "C14", F_PD,
+  "    buffer[0] = 'n';\n    buffer[1] = 'a';\n    buffer[2] = 'n';\n    buffer[3] = '\\0';\n", "    memcpy(buffer, \"nan\", 4);\n",
+  benign=True)
